@@ -34,13 +34,12 @@ SPEC = {
     "id": "C09",
     "gens": ["FmtTables", "ParseTables"],
     "lean_modules": ["RsslVerif.Thm.C09"],
-    "level_note": "roundtrip_expr_partial: WF excludes LitOk-failing literals, assignment as middle operand of a conditional "
-                  "(negation proved: ternary_middle_assignment_breaks); casts, sizeof, template "
+    "level_note": "roundtrip_expr_partial: WF excludes LitOk-failing literals only; casts, sizeof, template "
                   "arguments, braced init, statements and declarators are reached by the correspondence run only",
     "theorems": [T + n for n in [
         "binToks_lexes", "unTok_lexes", "tables_agree", "assoc_agrees", "ternary_level", "unary_tables_agree",
         "glue_prefix_prefix", "glue_postfix_next", "glue_needs_space", "paren_rule_matches_grammar",
-        "roundtrip_expr_partial", "roundtrip_subexpr_partial", "ternary_middle_assignment_breaks"]],
+        "roundtrip_expr_partial", "roundtrip_subexpr_partial"]],
     "harness": "c09",
     "harness_args": harness_args,
     "nontrivial": nontrivial,
@@ -50,8 +49,7 @@ SPEC = {
                   "inverse by structural induction for every tree over literals, identifiers, all unary and binary operators, "
                   "the conditional, member access, subscripts and calls, at every nesting depth and in front of every expression "
                   "terminator; the table-level obligations (precedence <-> level, associativity, spelling <-> tokens, operator "
-                  "glue) are decided over the regenerated tables; the full statement is refuted with a witness where it is "
-                  "false (assignment in the middle of a conditional). Casts, sizeof, template arguments, literals' text "
+                  "glue) are decided over the regenerated tables. Casts, sizeof, template arguments, literals' text "
                   "and statements/declarators are covered by the correspondence run only.",
     "rule": "requests = (context, expression tree) built directly as rssl_ast values, printed by the real "
             "rssl_formatter::format (HLSL) inside `return e;` / `e;` / `int v = e;` / `g(e)` / `g[e]`, re-read by the real "
